@@ -162,11 +162,23 @@ def run_job(job):
             # copytree preserves mtimes (copy2)
             cmd = action_cmd(sc["action"], sc["file"])
             plan = Plan(sc["pseed"], sc["strategy"], faults=[f"cmd@{sc['trigger']}@{cmd}"])
+            if sc.get("decisions") is not None:
+                dpath = os.path.join(ctl, f"decisions_in_{n}.txt")
+                with open(dpath, "w") as fh:
+                    fh.write("\n".join(str(x) for x in sc["decisions"]) + "\n")
+                plan = Plan(sc["pseed"], "replay", faults=[f"cmd@{sc['trigger']}@{cmd}"],
+                            decisions_in=dpath)
             argv = ["-o", "out"] + inputs + [f"--threads={sc['threads']}"]
             if not sc["fork"]:
                 argv.append("--no-fork")
             r = sim_link(argv, d, plan, tag=f"r{n}", ctl_dir=ctl)
             check_sim_health(r, f"mut job {index} scenario {sc}")
+            if job.get("want_decisions"):
+                try:
+                    with open(r.decisions_path) as fh:
+                        res["decisions"] = [int(x) for x in fh.read().split()]
+                except (FileNotFoundError, ValueError):
+                    res["decisions"] = []
             res["runs"] += 1
             res["steps"] += r.steps
             res["switches"] += int(r.summary.get("switches", 0))
